@@ -518,9 +518,12 @@ class InternationalizationExtension(Extension):
         newstyle = self.environment.newstyle_gettext  # type: ignore
         node: nodes.Expr
 
-        # no variables referenced?  no need to escape for old style
-        # gettext invocations only if there are vars.
-        if not vars_referenced and not newstyle:
+        # old style gettext invocations are only formatted (``% {vars}``
+        # below) if there are variables; without that step the doubled
+        # percent signs have to be collapsed here.  Variables that are
+        # bound in the tag but not referenced in the body still cause the
+        # formatting step, so the text must stay escaped for them.
+        if not variables and not newstyle:
             singular = singular.replace("%%", "%")
             if plural:
                 plural = plural.replace("%%", "%")
